@@ -13,7 +13,9 @@ PYBIND_TPL = """// test template
 {module_def} {{
     m_.doc() = "pybind11 wrapper of {module_name}";
 {submodules_init}
+// VERIF-BODY-BEGIN
 {wrapped_namespace}
+// VERIF-BODY-END
 }}
 """
 
